@@ -132,6 +132,42 @@ impl ImportResolver for MapResolver {
 	}
 }
 
+#[derive(Trace)]
+struct PassNative;
+impl jrsonnet_evaluator::function::builtin::NativeCallbackHandler for PassNative {
+	fn call(&self, args: &[jrsonnet_evaluator::Val]) -> JrResult<jrsonnet_evaluator::Val> {
+		Ok(args[0].clone())
+	}
+}
+/// `first(a, b)`: forces and returns `a`, never touches `b`
+#[derive(Trace)]
+struct FirstNative;
+impl jrsonnet_evaluator::function::builtin::Builtin for FirstNative {
+	fn name(&self) -> &str {
+		"first"
+	}
+	fn params(&self) -> jrsonnet_ir::function::FunctionSignature {
+		use jrsonnet_ir::function::{FunctionSignature, ParamDefault, ParamName, ParamParse};
+		FunctionSignature::new(
+			vec![
+				ParamParse::new(ParamName::Named("a".into()), ParamDefault::None),
+				ParamParse::new(ParamName::Named("b".into()), ParamDefault::None),
+			]
+			.into(),
+		)
+	}
+	fn call(
+		&self,
+		_loc: jrsonnet_evaluator::function::CallLocation<'_>,
+		args: &[Option<jrsonnet_evaluator::Thunk<jrsonnet_evaluator::Val>>],
+	) -> JrResult<jrsonnet_evaluator::Val> {
+		args[0].as_ref().expect("a is required").evaluate()
+	}
+	fn as_any(&self) -> &dyn std::any::Any {
+		self
+	}
+}
+
 /// A state plus the handles the simulator needs to drive it
 pub struct Host {
 	pub state: State,
@@ -150,12 +186,20 @@ impl Host {
 			loads: loads.clone(),
 		})
 		.context_initializer(stdlib_with_trace(traces.clone()));
-		Self {
+		let host = Self {
 			state: b.build(),
 			traces,
 			files,
 			loads,
-		}
+		};
+		// embedder code running inside evaluation (S3): a strict and a lazy native
+		#[allow(deprecated)]
+		host.std_ctx().add_native(
+			"pass",
+			jrsonnet_evaluator::function::builtin::NativeCallback::new(vec!["x".to_owned()], PassNative),
+		);
+		host.std_ctx().add_native("first", FirstNative);
+		host
 	}
 	fn std_ctx(&self) -> &jrsonnet_stdlib::ContextInitializer {
 		self.state
